@@ -29,6 +29,7 @@ import (
 	"github.com/bluenviron/mediamtx/internal/conf"
 	"github.com/bluenviron/mediamtx/internal/defs"
 	"github.com/bluenviron/mediamtx/internal/externalcmd"
+	"github.com/bluenviron/mediamtx/internal/hooks"
 	"github.com/bluenviron/mediamtx/internal/logger"
 	"github.com/bluenviron/mediamtx/internal/staticsources"
 	"github.com/bluenviron/mediamtx/internal/stream"
@@ -470,10 +471,56 @@ func vErrTok(err error) string {
 	return "suberr"
 }
 
+// hooks.OnRead / hooks.OnConnect called the way every server does: once, then the closure once.
+type vHookLog struct{ toks []string }
+
+func (l *vHookLog) Log(_ logger.Level, f string, a ...any) {
+	m := fmt.Sprintf(f, a...)
+	switch {
+	case strings.HasSuffix(m, "runOnRead command started"):
+		l.toks = append(l.toks, "h+read")
+	case strings.HasSuffix(m, "runOnUnread command launched"):
+		l.toks = append(l.toks, "h-read")
+	case strings.HasSuffix(m, "runOnConnect command started"):
+		l.toks = append(l.toks, "h+connect")
+	case strings.HasSuffix(m, "runOnDisconnect command launched"):
+		l.toks = append(l.toks, "h-connect")
+	}
+}
+
+func vHookObj(kind string) string {
+	l := &vHookLog{}
+	pool := &externalcmd.Pool{}
+	pool.Initialize()
+	switch kind {
+	case "read":
+		stop := hooks.OnRead(hooks.OnReadParams{
+			Logger: l, ExternalCmdPool: pool,
+			Conf:           &conf.Path{RunOnRead: vNoCmd, RunOnUnread: vNoCmd},
+			ExternalCmdEnv: externalcmd.Environment{"MTX_PATH": "p"},
+			Reader:         defs.APIPathReader{Type: "rtspSession", ID: "1"},
+		})
+		stop()
+	case "connect":
+		stop := hooks.OnConnect(hooks.OnConnectParams{
+			Logger: l, ExternalCmdPool: pool, RunOnConnect: vNoCmd, RunOnDisconnect: vNoCmd,
+			RTSPAddress: ":8554",
+			Desc:        defs.APIPathReader{Type: "rtspConn", ID: "1"},
+		})
+		stop()
+	}
+	pool.Close()
+	synctest.Wait()
+	return strings.Join(l.toks, " ")
+}
+
 func vExec(op string) string {
 	f := strings.Fields(op)
 	if f[0] == "reset" {
 		return vReset(f)
+	}
+	if f[0] == "hookobj" {
+		return vHookObj(f[1])
 	}
 	w := vW
 	if w == nil {
@@ -867,7 +914,11 @@ func vGenHistory(r *verifutil.Rand, prop string, thorough bool) []string {
 		case x < 92:
 			ops = append(ops, fmt.Sprintf("write %d", r.Intn(nsub+1)))
 		case x < 94:
-			ops = append(ops, "reload "+vb(r.Bool()))
+			if prop == "C20" && r.Chance(1, 2) {
+				ops = append(ops, "hookobj "+r.Pick("read", "connect"))
+			} else {
+				ops = append(ops, "reload "+vb(r.Bool()))
+			}
 		case x < 96:
 			ops = append(ops, fmt.Sprintf("detach %d", r.Intn(nrd)))
 		case x < 98:
